@@ -169,7 +169,7 @@ def run(check):
                             if st == "none":
                                 continue      # a reference without any `use` or qualification names no crate: out of scope
                             # completeness is claimed only for plain / grouped `use` of un-renamed types
-                            kid = {"glob": "glob-import-adds-nothing", "as": "use-as-ignored"}.get(st)
+                            kid = {"as": "use-as-ignored"}.get(st)
                             if kid is None and item_renamed(files, oc, wname):
                                 kid = "renamed-type-not-imported"
                             if kid and check.known(kid, {"lang": lang, "file": f["rel"], "type": wname, "style": st}):
@@ -257,7 +257,6 @@ def witnesses(check):
     A = "#[typeshare]\npub struct Target { pub a: u8 }\n"
     AR = "#[typeshare]\n#[serde(rename = \"Renamed\")]\npub struct Target { pub a: u8 }\n"
     cases = {"renamed-type-not-imported": (AR, "use alpha::Target;\n#[typeshare]\npub struct User { pub t: Target }\n", "Renamed"),
-             "glob-import-adds-nothing": (A, "use alpha::*;\n#[typeshare]\npub struct User { pub t: Target }\n", "Target"),
              "use-as-ignored": (A, "use alpha::Target as Target;\n#[typeshare]\npub struct User { pub t: Target }\n", "Target")}
     for kid, (a, b, name) in cases.items():
         with Scratch() as sc:
